@@ -7,7 +7,6 @@ import (
 	"strings"
 
 	"github.com/lyraproj/issue/issue"
-	"github.com/lyraproj/pcore/pcore"
 	"github.com/lyraproj/pcore/px"
 	"github.com/lyraproj/pcore/serialization"
 	"github.com/lyraproj/pcore/types"
@@ -260,32 +259,34 @@ func panicClass(e interface{}) string {
 // runOne serializes v under cfg with the serializing context ctxS into a recorder that feeds a
 // deserializer living in a fork of ctxS.
 func runOne(ctxS px.Context, v px.Value, cfg Config) (out outcome) {
-	pcore.DoWithParent(ctxS, func(ctxD px.Context) {
-		ds := serialization.NewDeserializer(ctxD, px.EmptyMap)
-		plain := types.NewCollector()
-		rec := &recorder{cfg: cfg, to: []px.ValueConsumer{ds, plain}}
-		func() {
-			defer func() {
-				if e := recover(); e != nil {
-					out.serFault = panicClass(e)
-				}
-			}()
-			serialization.NewSerializer(ctxS, cfg.options()).Convert(v, rec)
+	// the deserializer lives in a fork of the serializing context (types it registers stay there); the
+	// fork is handed over explicitly and is not made current: switching the current context costs two
+	// runtime.Stack calls (threadlocal.getg) per run.
+	ctxD := ctxS.Fork()
+	ds := serialization.NewDeserializer(ctxD, px.EmptyMap)
+	plain := types.NewCollector()
+	rec := &recorder{cfg: cfg, to: []px.ValueConsumer{ds, plain}}
+	func() {
+		defer func() {
+			if e := recover(); e != nil {
+				out.serFault = panicClass(e)
+			}
 		}()
-		out.events, out.wf, out.refs = rec.events, rec.wf, rec.refs
-		if out.serFault != "" {
-			return
-		}
-		func() {
-			defer func() {
-				if e := recover(); e != nil {
-					out.resFault = panicClass(e)
-				}
-			}()
-			out.data = plain.Value()
-			out.result = ds.Value()
+		serialization.NewSerializer(ctxS, cfg.options()).Convert(v, rec)
+	}()
+	out.events, out.wf, out.refs = rec.events, rec.wf, rec.refs
+	if out.serFault != "" {
+		return
+	}
+	func() {
+		defer func() {
+			if e := recover(); e != nil {
+				out.resFault = panicClass(e)
+			}
 		}()
-	})
+		out.data = plain.Value()
+		out.result = ds.Value()
+	}()
 	return
 }
 
